@@ -5,6 +5,10 @@ from .types import StrT, SegT
 from .speclib import VIEW_MACROS
 
 F = "pygamma_agreement/sampler.py::"
+from pyvc.heap import register_class   # noqa: E402
+register_class("AbstractContinuumSampler", "pygamma_agreement/sampler.py")
+register_class("StatisticalContinuumSampler", "pygamma_agreement/sampler.py", ["AbstractContinuumSampler"])
+register_class("ShuffleContinuumSampler", "pygamma_agreement/sampler.py", ["AbstractContinuumSampler"])
 
 # ------------------------------------------------------------------------------------------ _remove_pivot_segment  (C16 W4)
 # pointwise over the reals: a point (other than the two end points of the exclusion zone) is covered by the result iff it was
@@ -44,3 +48,51 @@ contract(F + "ShuffleContinuumSampler._remove_pivot_segment",
              ("after", "new_segments.append(Segment(segment.start, pivot - dist))",
               "assert forall([(x, Real)], implies(cover(NSD, x) or (segment.start <= x and x <= pivot - dist), cover(new_segments, x)))")],
          serves={"C16"})
+
+# =========================================================================================================
+# StatisticalContinuumSampler   (C15: valid continua over the ground-truth annotators; every clause holds for EVERY draw)
+# =========================================================================================================
+CONT = lambda: ObjT("Continuum")      # noqa: E731
+STAT = lambda: ObjT("StatisticalContinuumSampler", _reference_continuum=OptObjT(CONT()),       # noqa: E731
+                    _ground_truth_annotators=OptObjT(ObjT("SetStr")),
+                    _avg_nb_units_per_annotator=RealT(), _std_nb_units_per_annotator=RealT(), _avg_gap=RealT(), _std_gap=RealT(),
+                    _avg_unit_duration=RealT(), _std_unit_duration=RealT(), _categories=ListOf(StrT()),
+                    _categories_weight=OptT(ListOf(RealT())))
+
+contract(F + "AbstractContinuumSampler._has_been_init",
+         params={"self": STAT()}, modifies=[],
+         raises={"AssertionError": {"iff": "isnone(self._reference_continuum)"}}, serves={"C15", "C16"})
+
+contract(F + "StatisticalContinuumSampler.sample_from_continuum",
+         params={"self": STAT()}, returns=CONT(), is_property=True, modifies=[], macros=VIEW_MACROS + [
+             Macro("ref", [], "some(self._reference_continuum)"), Macro("GT", [], "some(self._ground_truth_annotators)"),
+             Macro("iscat", ["l"], "exists(c, 0, len(self._categories), self._categories[c] == l)")],
+         coerce={"last_point": "Real"},
+         requires=["not isnone(self._ground_truth_annotators)", "implies(not isnone(self._reference_continuum), ref().bound_inf <= ref().bound_sup)",
+                   "len(self._categories) >= 1"],
+         raises={"AssertionError": {"iff": "isnone(self._reference_continuum)"},
+                 "ValueError": {}},     # the boundary draw end - start == SEGMENT_PRECISION leaves the redraw loop and is rejected by add
+         ensures=[cl("fresh_obj(result) and disjoint_state(result, ref())", "C15 C14", name="fresh"),
+                  cl("forall([(a, Real)], Ann(result)[a] == members(GT())[a])", "C15 C05", name="V1-exactly-the-ground-truth-annotators"),
+                  cl("implies(size(GT()) >= 1, exists([(a, Real), (u, Unit)], Us(result)[a][u]))", "C15 C05", name="V2-non-empty"),
+                  cl("RI(result)", "C15 C05", name="V3-valid-units-longer-than-the-precision"),
+                  cl("forall([(l, Real)], implies(Cat(result)[l], iscat(l)))", "C15", name="V4-only-the-sampler's-categories"),
+                  cl("result.bound_inf <= ref().bound_inf and result.bound_sup >= ref().bound_sup and "
+                     "result.best_window_size == ref().best_window_size", "C15", name="V5-bounds-and-window-from-the-reference")],
+         loops={"L0": dict(match="for annotator in self._ground_truth_annotators", index="kA", modifies=["new_continnum"],
+                           inv=["forall([(a, Real)], Ann(new_continnum)[a] == (members(GT())[a] and idxof(GT())[a] < kA))",
+                                "implies(kA >= 1, exists([(a, Real), (u, Unit)], Us(new_continnum)[a][u]))",
+                                "RI(new_continnum)", "forall([(l, Real)], implies(Cat(new_continnum)[l], iscat(l)))",
+                                "new_continnum.bound_inf <= ref().bound_inf and new_continnum.bound_sup >= ref().bound_sup and "
+                                "new_continnum.best_window_size == ref().best_window_size"]),
+                "L0.0": dict(match="for _ in range(nb_units)", modifies=["new_continnum"],
+                             inv=["forall([(a, Real)], Ann(new_continnum)[a] == (members(GT())[a] and idxof(GT())[a] <= kA))",
+                                  "implies(kA >= 1 or _ >= 1 or nb_units == 0, exists([(a, Real), (u, Unit)], Us(new_continnum)[a][u]))",
+                                  "RI(new_continnum)", "forall([(l, Real)], implies(Cat(new_continnum)[l], iscat(l)))",
+                                  "new_continnum.bound_inf <= ref().bound_inf and new_continnum.bound_sup >= ref().bound_sup and "
+                                  "new_continnum.best_window_size == ref().best_window_size"]),
+                "L0.0.0": dict(match="while end - start < pyannote.core.segment.SEGMENT_PRECISION", inv=["true()"])},
+         hooks=[("before", "if not new_continnum: ...", "model_inv wfmap(new_continnum)"),
+                ("before", "for _ in range(nb_units): ...",
+                 "assert nb_units >= 1 or exists([(a, Real), (u, Unit)], Us(new_continnum)[a][u])")],
+         serves={"C15", "C05", "C14"})
